@@ -4,7 +4,7 @@
    [ref_args g c t] = tinputs t ++ map c (pred g t): static inputs, then predecessor results in the
    order of the workflow's predecessor list;  [built g]: g is reachable by WorkflowBuilder operations. *)
 From Coq Require Import List Bool PArith Arith Permutation.
-From PV Require Import Base.PyData C17.Model C17.ProofsSched C17.ProofsDask C17.ProofsGraph C17.ProofsBuilder C17.Proofs C17.ProofsPrepare C17.ProofsDeclared C17.ProofsFinal.
+From PV Require Import Base.PyData C17.Model C17.ProofsSched C17.ProofsDask C17.ProofsGraph C17.ProofsBuilder C17.Proofs C17.ProofsPrepare C17.ProofsDeclared C17.ProofsOptimize C17.ProofsQueries C17.ProofsFinal.
 Import ListNotations.
 
 (* The sequential reference evaluation IS what the property describes: in any order in which it
@@ -239,3 +239,73 @@ Theorem execute_is_declared_evaluation :
     declared_eval apply ctx (workflow_of g) order = Some rc -> (forall t, In t order <-> In t (nodes g)) ->
     execute apply g ctx next ids = ROk (rget rc o).
 Proof. exact execute_is_declared_evaluation_stmt. Qed.
+
+(* ---- dispatchers/local_dask/optimize.py ------------------------------------------------------------- *)
+(* scatter_preserves.  _scatter_computation replaces objects (not numbers, strings, dicts, callables) inside
+   task arguments, tuples and lists by futures; for EVERY dict without futures and every key, the distributed
+   scheduler (which hands the tasks the data of the futures) computes on the scattered dict exactly what the
+   local scheduler computes on the original: same value or cycle error, same calls. *)
+Theorem scatter_preserves :
+  forall (apply : positive -> list sval -> sval) (d : dsk) (k : positive),
+    dsk_no_fut d = true -> dask_get_dist_log apply (scatter_dsk d) k = dask_get_log apply d k.
+Proof. exact scatter_preserves_stmt. Qed.
+
+Theorem scatter_unpacks_to_original : forall a, no_fut a = true -> unfut (scatter a) = a.
+Proof. exact scatter_unpacks_to_original_stmt. Qed.
+
+(* ... and as_dask_dict (with its quoting) makes such a dict from any static input without futures *)
+Theorem as_dask_dict_has_no_futures :
+  forall (g : tgraph) (ids : task -> positive) (d : dsk),
+    as_dask_dict g ids = Some d ->
+    (forall t a, In t (nodes g) -> In a (tinputs t) -> no_fut a = true) -> dsk_no_fut d = true.
+Proof. exact as_dask_dict_has_no_futures_stmt. Qed.
+(* (dask.optimization.fuse is an engine: its inline / alias steps are read off every real optimized dict and
+   re-applied and re-evaluated inside Coq by the check - tags 10 and 19 - there is no theorem about them.) *)
+
+(* ---- queries and + ------------------------------------------------------------------------------------ *)
+(* output_tasks / input_tasks: exactly the tasks without successors / predecessors, in node order *)
+Theorem output_tasks_exact :
+  forall (g : tgraph),
+    output_tasks g = filter (fun t => match succ g t with [] => true | _ => false end) (nodes g) /\
+    forall t, In t (output_tasks g) <-> In t (nodes g) /\ succ g t = [].
+Proof. exact output_tasks_exact_stmt. Qed.
+
+Theorem input_tasks_exact :
+  forall (g : tgraph),
+    input_tasks g = filter (fun t => match pred g t with [] => true | _ => false end) (nodes g) /\
+    forall t, In t (input_tasks g) <-> In t (nodes g) /\ pred g t = [].
+Proof. exact input_tasks_exact_stmt. Qed.
+
+(* WorkflowBuilder.__add__ / Workflow.__add__ (nx.compose): the tasks of the left operand in their order, then
+   the new tasks of the right one in theirs; exactly the union of the edges *)
+Theorem plus_exact :
+  forall (g h : tgraph), built g -> built h ->
+    nodes (builder_plus g h) = nodes g ++ filter (fun x => negb (tmem x (nodes g))) (nodes h) /\
+    (forall u v, In v (succ (builder_plus g h) u) <-> In v (succ g u) \/ In v (succ h u)).
+Proof. exact plus_exact_stmt. Qed.
+
+(* get_upstream_tasks (nx.edge_dfs, orientation='reverse'), PARTIAL: everything it lists is a strict ancestor
+   (a predecessor of a predecessor ... of t).  Missing: that every strict ancestor is listed - checked per case
+   against the saturation [ancestors] by oracle tag 20, not proved. *)
+Theorem get_upstream_tasks_sound_partial :
+  forall (g : tgraph) (t x : task), In x (upstream task task_eqb g t) -> reach g x t.
+Proof. exact get_upstream_tasks_sound_partial_stmt. Qed.
+
+(* ---- call_workflow (a task that runs a workflow of its own) --------------------------------------------- *)
+(* call_workflow_context_exact.  The workflow call_workflow(wf, name, ctx) hands to the scheduler has the
+   tasks of wf in their order (as [call_image]s: same name and function), every task whose function asks for a
+   context gets THIS ctx prepended to its static input exactly once, no other task gets it; exactly the
+   declared edges; predecessors in the declared order.  With dask_dict_sound / exactly_once (any workflow
+   graph): each of those functions is called once, with ctx first. *)
+Theorem call_workflow_context_exact :
+  forall (g : tgraph) (ctx : sval) (next : positive), built g -> uids_below next g = true ->
+    nodes (call_prepare g ctx next) = map (call_image g ctx next) (nodes g) /\
+    (forall t, In t (nodes g) ->
+       tid (call_image g ctx next t) = tid t /\ tfun (call_image g ctx next t) = tfun t /\
+       tctx (call_image g ctx next t) = tctx t /\
+       tinputs (call_image g ctx next t) = if tctx t then ctx :: tinputs t else tinputs t) /\
+    (forall u v, In u (nodes g) -> In v (nodes g) ->
+       (In (call_image g ctx next v) (succ (call_prepare g ctx next) (call_image g ctx next u)) <-> In v (succ g u))) /\
+    (forall t, In t (nodes g) ->
+       pred (call_prepare g ctx next) (call_image g ctx next t) = map (call_image g ctx next) (pred (workflow_of g) t)).
+Proof. exact call_workflow_context_exact_stmt. Qed.
